@@ -271,9 +271,7 @@ class World:
         self.replay_order = None
         self.cur_host = 'verifhost'
         self.stack = []           # sids whose code is on the call stack
-        self.mid = None           # armed mid-handler injection
-        self.mid_host = None
-        self.mid_calls = 0
+        self.frames = []          # handler invocations in progress
         self.sleeping = None      # ep_register in progress
         self.sleep_chooser = None
         self.nsleeps = 0
@@ -295,6 +293,7 @@ class World:
             'registrations_checked_own_session': 0,
             'rt_crashed_session_lingers': 0,
             'rt_registered_while_same_data_node_lingers': 0,
+            'handler_preempted': 0, 'preempted_by_other_hosts_handler': 0,
         }
         self.faults = {'session_expired': 0, 'expire_mid_handler': 0,
                        'svc_killed': 0, 'kill_node': 0, 'placement_moved': 0,
@@ -352,32 +351,68 @@ class World:
             context.GLOBAL.zk.conn = host.proc.client
 
     def _hook_client(self, client, hostname):
-        """Count the ZooKeeper calls of a service session: the injection
-        point 'before its k-th call in this op'."""
+        """Pre-emption points: before every ZooKeeper call (create / get /
+        exists / get_children / set / set_acls / delete ...) of a service
+        session the simulator may let the rest of the world act.  What
+        happens before the k-th call of the handler invocation(s) of an op is
+        recorded in the op: "during": [[k, [op, ...]], ...] (the older form
+        "mid": {"at": k, "do": op} means [[k, [op]]])."""
         orig = client._check
 
         def hooked():
-            mid = self.mid
-            if mid is not None and self.mid_host == hostname:
-                self.mid_calls += 1
-                if self.mid_calls == mid['at']:
-                    self.mid = None
-                    self.faults['expire_mid_handler'] += 1
-                    self.log.ev('mid', hostname, mid['at'], mid['do'])
-                    self.apply(mid['do'], nested=True)
+            frame = self.frames[-1] if self.frames else None
+            if frame is not None and frame['host'] == hostname and \
+                    frame['points']:
+                frame['calls'] += 1
+                todo = frame['points'].pop(frame['calls'], None)
+                if todo:
+                    self._preempt(hostname, frame['calls'], todo)
             orig()
         client._check = hooked
 
+    def _preempt(self, hostname, at, todo):
+        saved_conn = context.GLOBAL.zk._conn
+        saved_host = self.cur_host
+        saved_order = self.replay_order
+        self.probes['handler_preempted'] += 1
+        try:
+            for sub in todo:
+                if not isinstance(sub, dict):
+                    continue
+                sub = {k: v for k, v in sub.items()
+                       if k not in ('during', 'mid', 'sleeps')}
+                if sub.get('op') == 'expire':
+                    self.faults['expire_mid_handler'] += 1
+                self.log.ev('during', hostname, at, sub)
+                self.replay_order = None
+                self.apply(sub, nested=True)
+        finally:
+            # back in the pre-empted process
+            context.GLOBAL.zk._conn = saved_conn
+            self.cur_host = saved_host
+            self.replay_order = saved_order
+
     def _arm(self, op, host):
+        points = {}
         mid = op.get('mid')
-        if mid and mid.get('do', {}).get('op') == 'expire':
-            self.mid = mid
-            self.mid_host = host.name
-            self.mid_calls = 0
+        if isinstance(mid, dict) and isinstance(mid.get('at'), int):
+            points.setdefault(mid['at'], []).append(mid.get('do'))
+        during = op.get('during')
+        if isinstance(during, list):
+            for item in during:
+                if isinstance(item, list) and len(item) == 2 and \
+                        isinstance(item[0], int) and \
+                        isinstance(item[1], list):
+                    points.setdefault(item[0], []).extend(item[1])
+        self.frames.append({'host': host.name, 'calls': 0, 'points': points})
 
     def _disarm(self):
-        self.mid = None
-        self.mid_host = None
+        self.frames.pop()
+
+    def _busy(self, hostname):
+        """A handler of this host's service is on the call stack (it is
+        pre-empted): the process cannot run a second one."""
+        return any(f['host'] == hostname for f in self.frames)
 
     def _valid(self, cont):
         if cont.acked_sid is None or not cont.present or cont.voided:
@@ -480,7 +515,7 @@ class World:
             return res
         cont.last_eval = how
         window = self.zk.oplog[pos:]
-        if any(e[2] == 'set' for e in window):
+        if any(e[2] == 'set' and e[1] == sid for e in window):
             self.probes['own_node_updated'] += 1
         if res:
             was_waiting = cont.waiting
@@ -596,7 +631,7 @@ class World:
     def op_restart(self, op):
         """Supervisor starts the presence service of a host."""
         host = self.hosts.get(op.get('host'))
-        if host is None or host.proc is not None:
+        if host is None or host.proc is not None or self._busy(host.name):
             return
         host.starts += 1
         if host.starts > 1:
@@ -665,7 +700,7 @@ class World:
     def op_kill(self, op):
         """SIGKILL of the service process: the session lingers."""
         host = self.hosts.get(op.get('host'))
-        if host is None or host.proc is None:
+        if host is None or host.proc is None or self._busy(host.name):
             return
         sid = host.proc.sid
         self.faults['svc_killed'] += 1
@@ -760,9 +795,11 @@ class World:
     def op_svc(self, op):
         """One turn of the service loop: up to n request events."""
         host = self.hosts.get(op.get('host'))
-        if host is None or host.proc is None:
+        if host is None or host.proc is None or self._busy(host.name):
             return 0
         proc = host.proc
+        if self.frames:
+            self.probes['preempted_by_other_hosts_handler'] += 1
         self._enter(host)
         self._arm(op, host)
         self.stack.append(proc.sid)
@@ -793,10 +830,11 @@ class World:
     def op_deliver(self, op):
         """Deliver up to n queued watch events of the host's service."""
         host = self.hosts.get(op.get('host'))
-        if host is None or host.proc is None:
+        if host is None or host.proc is None or self._busy(host.name):
             return 0
         proc = host.proc
         self._enter(host)
+        self._arm({}, host)
         self.stack.append(proc.sid)
         done = 0
         try:
@@ -807,6 +845,7 @@ class World:
                 self._proc_down(host, 'exit-in-watch')
         finally:
             self.stack.pop()
+            self._disarm()
         self.probes['watch_events_delivered'] += done
         return done
 
@@ -1091,6 +1130,7 @@ OP_WEIGHTS = [
     ('kill_node', 2), ('ep_register', 2), ('ep_exit', 1), ('handover', 3),
     ('restart_same_host', 2), ('ep_crash', 1), ('ep_reap', 1),
     ('rt_restart_same_host', 2), ('fence_old_host', 3),
+    ('call_level_race', 3),
 ]
 
 
@@ -1150,11 +1190,35 @@ class Generator:
         return {'op': 'delete', 'seq': self.rng.choice(pool).seq}
 
     def _mid(self, op):
-        if self.fault.random() < self.config['p_mid']:
-            op['mid'] = {'at': self.fault.randint(1, 6),
-                         'do': {'op': 'expire',
-                                'host': self.fault.choice(
-                                    self.config['hosts'])}}
+        """Pre-emption points of a handler op: before its k-th ZooKeeper
+        call the other hosts' services run whole handlers, sessions expire,
+        requests are deleted."""
+        fault = self.fault
+        if fault.random() >= self.config['p_mid']:
+            return op
+        others = [h for h in self.config['hosts'] if h != op['host']]
+        during = []
+        for at in sorted(fault.sample(range(1, 9), fault.choice([1, 1, 2]))):
+            subs = []
+            for _ in range(fault.choice([1, 1, 2])):
+                kind = fault.choice(['svc', 'svc', 'deliver', 'expire',
+                                     'delete', 'svc'])
+                if kind == 'svc' and others:
+                    subs.append({'op': 'svc', 'host': fault.choice(others),
+                                 'n': fault.choice([1, 1, 5])})
+                elif kind == 'deliver' and others:
+                    subs.append({'op': 'deliver', 'n': 9,
+                                 'host': fault.choice(others)})
+                elif kind == 'expire':
+                    subs.append({'op': 'expire', 'host': fault.choice(
+                        self.config['hosts'])})
+                elif kind == 'delete' and self.seq:
+                    subs.append({'op': 'delete',
+                                 'seq': fault.randint(1, self.seq)})
+            if subs:
+                during.append([at, subs])
+        if during:
+            op['during'] = during
         return op
 
     def g_svc(self, world):
@@ -1297,6 +1361,7 @@ class Generator:
             op = getattr(self, 'g_' + kind)(world)
             if op is not None:
                 op.pop('mid', None)
+                op.pop('during', None)
                 out.append(op)
         return out
 
@@ -1365,6 +1430,42 @@ class Generator:
             return first
         self.follow.extend(tail)
         return {'op': 'place', 'inst': cur.inst, 'host': old}
+
+    def g_call_level_race(self, world):
+        """The other host replaces its container (clean-up of the old one,
+        request of the next) while this host's handler is between two
+        ZooKeeper calls: the node this host found existing is deleted before
+        it is read back and registered again before the next call."""
+        olds = [c for c in world.conts.values()
+                if c.kind == 'svc' and c.present and world._valid(c) and
+                world.hosts[c.host].proc is not None and
+                not world._dir_pending(world.hosts[c.host].proc)]
+        if not olds:
+            return None
+        old = self.rng.choice(olds)
+        mine = [n for n, h in sorted(world.hosts.items())
+                if n != old.host and h.proc is not None and
+                not world._dir_pending(h.proc)]
+        if not mine:
+            return None
+        me = self.rng.choice(mine)
+        first, second = self.rng.choice([(2, 3), (2, 3), (2, 4), (3, 4),
+                                         (1, 2), (2, 2)])
+        nxt = self._request(world, old.inst, host=old.host)
+        req = self._request(world, old.inst, host=me)
+        during = [[first, [{'op': 'svc', 'host': old.host, 'n': 1}]]]
+        if second == first:
+            during[0][1].append({'op': 'svc', 'host': old.host, 'n': 5})
+        else:
+            during.append([second, [{'op': 'svc', 'host': old.host,
+                                     'n': 5}]])
+        order = [{'op': 'delete', 'seq': old.seq}, nxt, req]
+        if self.rng.random() < 0.3:
+            order = [nxt, {'op': 'delete', 'seq': old.seq}, req]
+        self.follow.extend(order[1:])
+        self.follow.append({'op': 'svc', 'host': me, 'n': 5,
+                            'during': during})
+        return order[0]
 
     def g_restart_same_host(self, world):
         """The instance restarts on the same host: the new container
@@ -1461,6 +1562,11 @@ class PresenceSim(enginemod.Engine):
         'DirWatcher objects of dead simulated processes are reused (watch '
         'removed, kernel queue drained) instead of closed',
         'utils.sys_exit raises SimProcessExit (process death)',
+        'scheduling granularity: before any ZooKeeper call of a service '
+        'handler the op may let other hosts\' services run whole handlers, '
+        'expire sessions, delete requests ("during": [[k, ops]]); a pre-empted '
+        'process runs no second handler; nested handlers are not pre-empted '
+        'again',
         'host names: a swarm parameter (pools with unrelated names and with '
         'names in a prefix relation, e.g. node1/node10, h.cell.co/h.cell.com)',
         'the scheduler master: a script that creates/deletes '
@@ -1493,11 +1599,11 @@ class PresenceSim(enginemod.Engine):
         return [
             'ZooKeeper is a single-copy linearizable store; watch events are '
             'delivered in order per session, at arbitrary later times',
-            'a handler invocation (one request event, one watch callback, one '
-            'publish, one kill_node) is atomic with respect to other sessions '
-            'except for session expiry, which is injected before any '
-            'ZooKeeper call of a handler; placement moves happen between '
-            'handler invocations',
+            'service handlers (request events of svc/restart ops) can be '
+            'pre-empted before any of their ZooKeeper calls by whole handlers '
+            'of the other hosts\' services, session expiry, request deletion '
+            'and placement moves; watch callbacks, publish and kill_node run '
+            'atomically; a nested handler is not pre-empted again',
             'a killed service process resumes its session on restart (zkid '
             'file) if the session is still alive, otherwise it gets a new one',
             'clause (2), persistent nodes: owner 0 is not "another session"; '
@@ -1536,13 +1642,33 @@ class PresenceSim(enginemod.Engine):
         cur = copy.deepcopy(ops)
         changed = False
         for i, op in enumerate(cur):
-            for key in ('mid', 'sleeps'):
+            for key in ('mid', 'sleeps', 'during'):
                 if op.get(key):
                     cand = copy.deepcopy(cur)
                     del cand[i][key]
                     if same(cand):
                         cur = cand
                         changed = True
+            # single pre-emption points / single ops inside them
+            j = 0
+            while j < len(cur[i].get('during') or []):
+                cand = copy.deepcopy(cur)
+                del cand[i]['during'][j]
+                if same(cand):
+                    cur = cand
+                    changed = True
+                    continue
+                k = 0
+                while k < len(cur[i]['during'][j][1]) and \
+                        len(cur[i]['during'][j][1]) > 1:
+                    cand = copy.deepcopy(cur)
+                    del cand[i]['during'][j][1][k]
+                    if same(cand):
+                        cur = cand
+                        changed = True
+                    else:
+                        k += 1
+                j += 1
         if changed:
             yield config, cur
 
